@@ -11,7 +11,7 @@
 //!              x every path x the builder option cross product of chmod_b and chown_b + chmod, chown, mkfile_m, mkdir_m.
 //! After every call that changed the state, `mode`, `is_exec`, `is_readonly`, `owner` and `entry` are asked on the
 //! same (mutated) instance; they are logged as a group of their own whose pre-state is that post-state (set sym: every
-//! entry, once per distinct post-state and worker; set tree: the entries that changed, every 4th / 2nd new post-state -
+//! entry, once per distinct post-state and worker; set tree: the entries that changed, every 4th / 3rd new post-state -
 //! the observers are also asked on every pre-state).
 use std::collections::HashSet;
 
@@ -207,7 +207,7 @@ fn set_sym(cx: &mut Ctx, thorough: bool, seed: u64, worker: u64, workers: u64) {
     let sg = subseqs(&["u", "g", "o", "a"]);
     let sp = subseqs(&["r", "w", "x"]);
     let single = singles();
-    let ndouble = if thorough { 300 } else { 250 };
+    let ndouble = if thorough { 150 } else { 250 };
     let mut unit: u64 = 0;
     let setup_of = |kind: &str, perm: u32| -> (Vec<Value>, &'static str) {
         match kind {
@@ -252,7 +252,7 @@ fn set_sym(cx: &mut Ctx, thorough: bool, seed: u64, worker: u64, workers: u64) {
     let mut rng = StdRng::seed_from_u64(seed.wrapping_mul(104729).wrapping_add(17));
     let full = ["d", "f", "a", ":", "u", "g", "o", "+", "-", "=", "r", "w", "x", ",", ":", ","];
     let nraw = raw.len();
-    for _ in 0..(if thorough { 40_000 } else { 2_000 }) {
+    for _ in 0..(if thorough { 15_000 } else { 2_000 }) {
         // random strings biased towards the shape of a clause
         let n = rng.gen_range(5..=9);
         let mut s = String::new();
@@ -268,7 +268,7 @@ fn set_sym(cx: &mut Ctx, thorough: bool, seed: u64, worker: u64, workers: u64) {
         raw.push(s);
     }
     // the exhaustive strings from one start permission, the edge cases and random strings from a second one as well
-    let raw_perms: Vec<u32> = if thorough { vec![0o644, 0o000, 0o750] } else { vec![0o644, 0o070] };
+    let raw_perms: Vec<u32> = if thorough { vec![0o644, 0o070] } else { vec![0o644, 0o070] };
     for kind in kinds.iter() {
         for (pi, &perm) in raw_perms.iter().enumerate() {
             // quick tier: a link accepts everything (one class): exhaustive part only up to length 3 there
@@ -371,7 +371,7 @@ fn tree_setup(t: &[(String, String)], variant: u32) -> Vec<Value> {
 /// otherwise every symbolic expression without octal + every octal selector with {no, one good, one malformed} expression
 fn tree_calls(p: &str, full: bool, thorough: bool) -> Vec<Value> {
     let mut v = vec![];
-    let recs: &[&str] = if thorough { &["", "r", "R"] } else { &["", "R"] };
+    let recs: &[&str] = if thorough && full { &["", "r", "R"] } else { &["", "R"] };
     let syms: Vec<(&str, &str)> = vec![
         ("", ""),
         ("s", "f:u+x"),
@@ -430,17 +430,19 @@ fn set_tree(cx: &mut Ctx, thorough: bool, seed: u64, worker: u64, workers: u64) 
             work.push((t.clone(), 1, thorough));
             work.push((t.clone(), 2, false));
         } else {
-            work.push((t.clone(), 1, thorough));
+            work.push((t.clone(), 1, false));
         }
     }
     let wide: Vec<_> = trees(1, &["a", "b"]).into_iter().filter(|t| t.iter().any(|(p, _)| p.starts_with("/b/"))).collect();
     let mut two: Vec<_> = trees(2, &["a", "b"]).into_iter().filter(|t| nlinks(t) == 2).collect();
     two.shuffle(&mut rng);
     if thorough {
-        for t in wide {
+        let mut wide = wide;
+        wide.shuffle(&mut rng);
+        for t in wide.into_iter().take(700) {
             work.push((t, 1, false));
         }
-        for t in two.into_iter().take(800) {
+        for t in two.into_iter().take(500) {
             work.push((t, 1, false));
         }
     } else {
@@ -454,16 +456,16 @@ fn set_tree(cx: &mut Ctx, thorough: bool, seed: u64, worker: u64, workers: u64) 
     let mut unit: u64 = 0;
     for (t, variant, full) in &work {
         let setup = tree_setup(t, *variant);
-        // every existing path, the root, and (quick tier) one missing path - all missing paths fail alike
-        let mut missing_done = false;
+        // every existing path, the root, and one (thorough: two) missing paths - all missing paths fail alike
+        let mut missing_done = 0;
         let mut first = true;
         for p in TARGETS.iter() {
             let exists = *p == "/" || t.iter().any(|(q, _)| q == p);
-            if !exists && !thorough {
-                if missing_done {
+            if !exists {
+                if missing_done >= if thorough { 2 } else { 1 } {
                     continue;
                 }
-                missing_done = true;
+                missing_done += 1;
             }
             unit += 1;
             let was_first = first;
@@ -489,7 +491,7 @@ fn main() {
     let mut cx = Ctx { out: Out::create(arg_or("out", "/dev/stdout")), prog: Progress::from_env(), id: 0, seen_post: HashSet::new(), steps: 0, qgroups: 0,
         qops: if set == "sym" { vec!["mode", "is_exec", "is_readonly", "owner", "entry"] } else { vec!["mode", "is_exec", "is_readonly", "owner"] },
         query_all: set == "sym",
-        post_every: if set == "sym" { 1 } else if thorough { 2 } else { 4 } };
+        post_every: if set == "sym" { 1 } else if thorough { 3 } else { 4 } };
     match set.as_str() {
         "sym" => set_sym(&mut cx, thorough, seed, worker, workers),
         "tree" => set_tree(&mut cx, thorough, seed, worker, workers),
